@@ -82,7 +82,8 @@ func genC13(r *core.Rng, i int) (files map[string]string, prog string, extra []s
 			// user-defined scalar function and aggregate evaluated per row by parallel workers
 			"DECLARE f FUNCTION (@a, @b DEFAULT 2) AS BEGIN VAR @x := @a * @b; IF @x > 10 THEN RETURN @x - 10; END IF; RETURN @x; END;\n" +
 				"DECLARE ag AGGREGATE (c) AS BEGIN VAR @s := 0; VAR @v; WHILE @v IN c DO IF @v IS NOT NULL THEN @s := @s + @v; END IF; END WHILE; RETURN @s; END;\n" +
-				"SELECT id, f(v), f(v, id) FROM t WHERE f(v) > 3;\nSELECT k, ag(v) FROM t GROUP BY k;\nSELECT id, ag(v) OVER (PARTITION BY k) FROM t WHERE id % 3 = 0;",
+				"DECLARE pick AGGREGATE (c, @k) AS BEGIN VAR @n := 0; VAR @x; WHILE @x IN c DO @n := @n + 1; END WHILE; RETURN @k * 1000 + @n; END;\n" +
+				"SELECT id, f(v), f(v, id) FROM t WHERE f(v) > 3;\nSELECT k, ag(v) FROM t GROUP BY k;\nSELECT id, ag(v) OVER (PARTITION BY k) FROM t WHERE id % 3 = 0;\nSELECT id, pick(v, id) OVER (PARTITION BY k) FROM t;",
 			// cursor over a large query + variable use
 			"DECLARE c CURSOR FOR SELECT id, v FROM t WHERE v > 1 ORDER BY v, id;\nOPEN c;\nVAR @i, @v, @n := 0;\nWHILE @i, @v IN c DO @n := @n + 1; END WHILE;\nCLOSE c;\nPRINT @n;\nSELECT COUNT(*) FROM t;",
 			// a statement failing inside one of several workers
